@@ -337,6 +337,15 @@ def check_case(case, obs, diag, want=("C01", "C10", "C05")):
                     findings.append(("C05", "C05/rise-after-zero", "counter %d rose to %d after having returned to zero" % (r, c)))
                 if c > 0 and r in o["fired"]:
                     findings.append(("C05", "C05/fired-while-held", "counter %d fired its callback but count is %d" % (r, c)))
+        if "C04" in want:
+            for r in range(case["nrc"]):
+                if o["counts"][r] > 0 and r in o["fired"]:
+                    holders = sorted({nodes[u]["k"] for u in range(N)
+                                      if any(i == r for m in _held_of(nodes[u], arrivals[u]) for (i, _) in m)}) or ["none"]
+                    findings.append(("C04", "C04/early-callback/sync-holder",
+                                     "after event %d the callback of counter %d has fired although the element is still held by %s (count %d)"
+                                     % (ei, r, "+".join(holders), o["counts"][r])))
+                    break
         if findings:
             return findings
     return findings
